@@ -570,8 +570,11 @@ def scaled_label_set(rng):
         if lab not in labels:
             labels.append(lab)
     if rng.random() < 0.6:       # usual: ascending (the values as the class itself derives them from the labels)
-        vd = FloatEnumParam('g', labels, unit).valuedict
-        labels = [lab for _, lab in sorted(enumerate(labels), key=lambda e: vd[e[0]])]
+        try:
+            vd = FloatEnumParam('g', labels, unit).valuedict
+            labels = [lab for _, lab in sorted(enumerate(labels), key=lambda e: vd[e[0]])]
+        except Exception:
+            pass
     return labels, unit, False
 
 
@@ -594,7 +597,11 @@ def gen_floatenum(rng, big):
     hasR, hasW = rng.random() < 0.5, rng.random() < 0.6
     # the values, to draw requests from (a throw-away class: the generator may look, the verdict is Lean's)
     from frappy.extparams import FloatEnumParam
-    p = FloatEnumParam('g', [tuple(e) if isinstance(e, list) else e for e in labels], unit)
+    try:
+        p = FloatEnumParam('g', [tuple(e) if isinstance(e, list) else e for e in labels], unit)
+    except Exception:
+        # the tree under test refuses a label list of the catalogue: not a reason to stop - the labels stream shows it
+        return {'kind': 'labels', 'labels': labels, 'unit': unit, 'ops': []}
     vd = dict(p.valuedict)
     vals = sorted(set(vd.values()))
     idxs = list(vd)
@@ -1301,6 +1308,18 @@ SAMPLES_PER_KIND = {'struct': 2, 'floatenum': 1, 'limits': 1, 'control': 2, 'lab
 GENS = {'struct': gen_struct, 'floatenum': gen_floatenum, 'limits': gen_limits, 'control': gen_control, 'labels': gen_labels}
 
 
+def constructible(case):
+    """a float/enum case whose label list the tree under test refuses becomes a case of the labels stream"""
+    if case['kind'] != 'floatenum':
+        return case
+    from frappy.extparams import FloatEnumParam
+    try:
+        FloatEnumParam('g', [tuple(e) if isinstance(e, list) else e for e in case['labels']], case['unit'])
+        return case
+    except Exception:
+        return {'kind': 'labels', 'labels': case['labels'], 'unit': case['unit'], 'ops': []}
+
+
 def run(ctx):
     res = Result()
     res.rule = ('generated modules x operation histories (depth <= 12 quick / 30 thorough), client requests through the real dispatcher '
@@ -1315,6 +1334,7 @@ def run(ctx):
         for fn in sorted(os.listdir(cdir)):
             with open(os.path.join(cdir, fn)) as f:
                 cases.append(json.load(f)['case'])
+    cases = [constructible(c) for c in cases]
     ncorpus = len(cases)
     per = ctx.budget(500, 6250)
     for kind in ('struct', 'floatenum', 'limits', 'control'):
